@@ -51,6 +51,13 @@ CHECKS = {
             'Exhaustive over the stated structural neighbourhoods, not over all byte strings; memory safety as far as '
             'the sanitizers observe; hangs re-run alone before being reported.',
             'bounded-exhaustive structural input enumeration on sanitizer builds of the real binary'),
+    'C11': ('fault_enumeration', '4 C11',
+            'Every command of both tools x every offset N (quick: boundary-dense subset; thorough: every N) at which a '
+            'regular-file stdout starts refusing writes (RLIMIT_FSIZE), every per-file limit for files created by '
+            'extract-files/extract-unused, plus /dev/full, closed pipes (SIGPIPE ignored/default) and bad destinations; '
+            'oracle: fewer bytes accepted than the fault-free output implies non-zero exit and a diagnostic.',
+            'Kernel RLIMIT_FSIZE semantics; pipe failures at arbitrary offsets are not injected (only offset 0).',
+            'exhaustive fault-point enumeration (write refusal at every output offset) on the real binaries'),
 }
 
 NA_REASON = 'check not built yet (work in progress; see DESIGN.md section 4)'
